@@ -33,6 +33,7 @@ type Job struct {
 	AllU       bool              // instantiate the probe for uint16/uint32/uint64/uint
 	NoProbe    bool              // only generate+compile (C08); no probe, not linked into the runner
 	Extra      map[string]string // extra files written next to the generated parser (name -> content)
+	Bare       bool              // use the bare probe (foreign grammars: no observer methods in the parser state)
 
 	// results
 	GenExit   int
@@ -71,6 +72,7 @@ type Req struct {
 	Pretty bool   `json:",omitempty"`
 	Stdout bool   `json:",omitempty"`
 	NoExec bool   `json:",omitempty"`
+	Shared bool   `json:",omitempty"` // initialise with option values shared by all instances of the package
 	// conc mode
 	Conc []Req `json:",omitempty"`
 	Gor  int   `json:",omitempty"`
@@ -140,11 +142,13 @@ func (c *Corpus) Job(name string) *Job { return c.byName[name] }
 func (c *Corpus) Remove() { os.RemoveAll(c.Dir) }
 
 var probeT = template.Must(template.New("probe").Parse(probeTmpl))
+var bareProbeT = template.Must(template.New("bareprobe").Parse(bareProbeTmpl))
 var runnerT = template.Must(template.New("runner").Parse(runnerTmpl))
 
 // Generate runs peg for every job (in parallel) and writes probes.
 func (c *Corpus) Generate() {
-	os.WriteFile(filepath.Join(c.Dir, "go.mod"), []byte("module wk\n\ngo 1.25\n"), 0o644)
+	// the peg module itself is importable (the shipped peg.peg imports its tree package)
+	os.WriteFile(filepath.Join(c.Dir, "go.mod"), []byte(fmt.Sprintf("module wk\n\ngo 1.25\n\nrequire github.com/pointlander/peg v0.0.0\n\nreplace github.com/pointlander/peg => %s\n", c.Env.Repo)), 0o644)
 	var wg sync.WaitGroup
 	sem := make(chan struct{}, 16)
 	for _, j := range c.Jobs {
@@ -180,7 +184,11 @@ func (c *Corpus) Generate() {
 			}
 			if !j.NoProbe {
 				var pb bytes.Buffer
-				if err := probeT.Execute(&pb, j); err != nil {
+				tmpl := probeT
+				if j.Bare {
+					tmpl = bareProbeT
+				}
+				if err := tmpl.Execute(&pb, j); err != nil {
 					panic(err)
 				}
 				os.WriteFile(filepath.Join(d, "probe.go"), pb.Bytes(), 0o644)
@@ -383,7 +391,7 @@ func (c *Corpus) runChunk(reqs []Req, res []Res, chunk []int, o RunOpts, w int) 
 		cmd := exec.Command("bash", "-c", sh)
 		gorace := o.GoRace
 		if gorace == "" {
-			gorace = "atexit_sleep_ms=0 halt_on_error=0"
+			gorace = "atexit_sleep_ms=0 halt_on_error=0 exitcode=0"
 		}
 		cmd.Env = append(os.Environ(), "GORACE="+gorace, "GOTRACEBACK=single")
 		runErr := cmd.Run()
